@@ -2,7 +2,7 @@
 from checks_common import three
 
 CHECK = {
-    "runs": three("c08_future", scales=(1.0, 1.0, 1.0)),
+    "runs": three("c08_future", scales=(2.5, 1.0, 4.0)),
     "design_ref": "DESIGN.md §5 C08",
     "technique": "seeded episodes racing get/wait_for/on_finish/then/ready against one set_value (or the last "
                  "count_down) under schedule perturbation at the seal/READY/CAS hook points; stamped call/return "
